@@ -380,3 +380,38 @@ def pu1(proj, rep, modules):
                 rep.ok('PU1', fi.qual, f'{stores} in-place store(s), all into locally created arrays', m, fi.node, text=f'{fi.qual} purity')
     rep.count('PU1.functions_with_stores', n)
     return n
+
+
+# ------------------------------------------------------------------------------------------------ O5
+RULE_O5 = ('O5: a memoised function of the named modules returns an immutable value (int / tuple / frozen array): a cached ndarray that is handed out unfrozen - '
+           'directly or through a public wrapper that just forwards it - is shared by all callers and by the recursion that builds longer results from it.')
+
+
+def o5(proj, rep, modules):
+    rep.rule('O5', RULE_O5)
+    cached = cached_functions(proj)
+    n = 0
+    for q in sorted(cached):
+        fi = proj.funcs[q]
+        if fi.module.name not in modules:
+            continue
+        m = fi.module
+        rep.touch(m)
+        n += 1
+        src = ast.unparse(fi.node).replace(' ', '')
+        frozen = 'flags.writeable=False' in src or 'setflags(write=False)' in src
+        arrayish = False
+        for r in return_exprs(fi.node):
+            names = {x.id for x in ast.walk(r) if isinstance(x, ast.Name)}
+            exprs = [r] + [v for nm in names for v, st, path in assignments(fi.node).get(nm, []) if v is not None]
+            for e in exprs:
+                t = ast.unparse(e)
+                if any(k in t for k in ('np.array(', 'np.zeros(', 'np.eye(', 'np.stack(', 'np.concatenate(', 'transvection(', 'np.ones(', '.copy()')) and not t.startswith(('tuple(', 'int(')):
+                    arrayish = True
+        if arrayish and not frozen:
+            rep.violation('O5', q, f'memoised ({cached[q]}) function returns an ndarray that is not frozen: every caller (and every recursive use of the cached prefix) shares '
+                          f'one mutable object, so an in-place edit of a result corrupts later results', m, fi.node, text=f'{q} cached value')
+        else:
+            rep.ok('O5', q, 'memoised value is immutable (ints / tuples) or frozen', m, fi.node, text=f'{q} cached value')
+    rep.count('O5.cached_functions', n)
+    return n
